@@ -78,7 +78,7 @@ var c10Cases = []c10Case{
 
 func notDefinedName(s string) bool {
 	return sym.And(s != "a", s != "s", s != "o", s != "i", s != "x", s != "n", s != "d", s != "q", s != "I",
-		s != "ID", s != "go", s != "Int") // built-in type and directive names of up to 3 bytes
+		s != "ID", s != "go", s != "Int", s != "Obj") // the schema's own and the built-in type and directive names of up to 3 bytes
 }
 
 // C10_reject: a valid request with exactly one undefined thing injected: an
